@@ -112,6 +112,9 @@ private:
 };
 
 void blake2b(void* out, size_t outlen, const void* in, size_t inlen, const void* key = nullptr, size_t keylen = 0);
+// same function under a name that survives the repository's `#define blake2b randomx_blake2b` when a harness
+// includes both worlds (include this header first)
+inline void blake2b_ref(void* out, size_t outlen, const void* in, size_t inlen, const void* key = nullptr, size_t keylen = 0) { blake2b(out, outlen, in, inlen, key, keylen); }
 
 // ---------------------------------------------------------------------------
 // AES round primitives (FIPS-197).  The 16 state bytes are in the FIPS input
